@@ -9,6 +9,7 @@ import (
 	"fmt"
 	"io"
 	"os"
+	"runtime/debug"
 	"strconv"
 	"strings"
 
@@ -198,6 +199,15 @@ func implAnswer(line string) (resp string) {
 			resp = "R class=panic msg=" + msgField(fmt.Sprint(r))
 		}
 	}()
+	if strings.HasPrefix(line, "seq ") {
+		// "seq <req1>|<req2>|...": run the sub-requests in order in this process,
+		// answer with the last one's response (history independence, C10)
+		resp = "R class=badrequest"
+		for _, sub := range strings.Split(strings.TrimSpace(line[4:]), "|") {
+			resp = implAnswer(sub)
+		}
+		return resp
+	}
 	fields := strings.Fields(line)
 	if len(fields) == 0 {
 		return "R class=badrequest"
@@ -260,6 +270,14 @@ func implAnswer(line string) (resp string) {
 
 // implWorkerMain is the "implworker" subcommand: a request/response loop.
 func implWorkerMain() {
+	// a runaway recursion in the implementation (e.g. rendering a cyclic value
+	// without a cycle check) must die quickly, not after filling a 1 GB stack;
+	// jqawk's own call-depth limit (4096) needs far less than this
+	mb := 64
+	if v, err := strconv.Atoi(os.Getenv("VERIF_MAXSTACK_MB")); err == nil && v > 0 {
+		mb = v
+	}
+	debug.SetMaxStack(mb << 20)
 	in := bufio.NewReaderSize(os.Stdin, 1<<20)
 	out := bufio.NewWriter(os.Stdout)
 	for {
